@@ -64,7 +64,8 @@ RULE = ("rt: row index of the written panel (default, permuted, reversed, offset
         "small panels (quick: seed-rotated slice, thorough: all) + random panels over magnitudes 1e-8..1e12, mixed magnitudes, ints, "
         "1..12 instances, length 1..60 + off-domain options (univariate=False, timestamp=True, mismatching label counts). "
         "files: every bundled dataset in every format (quick: small ones + seed-rotated large), harness-rendered three-format data sets, "
-        "generated TRAIN/TEST pairs through _load_dataset, loader call HISTORIES (all ordered pairs of the six split x form calls on the "
+        "every bundled problem through its loader in thorough and the 12-dimensional one (JapaneseVowels) in quick too, split=None compared with "
+        "train+test by position AND by column name/order; generated TRAIN/TEST pairs with 1..13 dimensions through _load_dataset, loader call HISTORIES (all ordered pairs of the six split x form calls on the "
         "small set, random sequences of 2-8 calls with user mutations of returned objects on bundled and generated sets; oracle only), "
         "malformed .ts/.arff/.tsv stream, corpus. distinct by driver line; "
         "non-trivial = the real loader returned a non-empty panel")
@@ -210,7 +211,7 @@ def compare(real, model):
         if k not in a:
             return False
     for k, v in a.items():
-        if k in ("forms", "idx"):        # observed on the real side only (oracle)
+        if k in ("forms", "idx", "cols"):        # observed on the real side only (oracle)
             continue
         if k not in b:
             return False
@@ -444,15 +445,17 @@ def _load(c):
             _write_tmp(os.path.join(d, name), name + "_TRAIN.ts", tr)
             _write_tmp(os.path.join(d, name), name + "_TEST.ts", te)
             call = lambda split, rxy: base.load_UCR_UEA_dataset(name, split=split, return_X_y=rxy, extract_path=d)
-        parts, forms, idx = [], [], []
+        parts, forms, idx, colnames = [], [], [], []
         for key, split in (("train", "train"), ("test", "test"), ("none", None)):
             try:
                 X, y = call(split, True)
                 r = canon_panel(X, y)
                 idx.append("c" if list(X.index) == list(range(len(X))) else "r")
+                colnames.append("+".join(enc(str(c_)) for c_ in X.columns))
             except Exception as e:
                 r = canon_err(e)
                 idx.append("e")
+                colnames.append("E")
             parts.append("%s=%s" % (key, r))
             try:
                 fr = call(split, False)
@@ -465,7 +468,7 @@ def _load(c):
             except Exception as e:
                 fr_r = canon_err(e)
             forms.append("T" if fr_r == r else "F")
-        return " ".join(parts) + " forms=" + "".join(forms) + " idx=" + "".join(idx)
+        return " ".join(parts) + " forms=" + "".join(forms) + " idx=" + "".join(idx) + " cols=" + "/".join(colnames)
 
 
 
@@ -835,6 +838,12 @@ def oracle(c, out):
             fails.append((site + ":none-labels", "labels for split=None are not train labels followed by test labels"))
         elif any(dn != da + db for dn, da, db in zip(no[2], tr[2], te[2])):
             fails.append((site + ":none-instances", "instances for split=None are not the training instances followed by the test instances"))
+        # by NAME as well as by position: the columns are dim_0 .. dim_{d-1} in the order of the file
+        for s, cn in zip(("train", "test", "none"), d.get("cols", "").split("/")):
+            want = ["dim_%d" % i for i in range(rs[s][0])]
+            got = [dec(x) for x in cn.split("+")] if cn else []
+            if got != want:
+                fails.append(("%s:column-order:%s" % (site, s), "split=%s of %s: columns %s, expected %s" % (s, c.get("ds", "generated set"), got[:14], want[:14])))
         forms = d.get("forms", "")
         for s, f in zip(("train", "test", "none"), forms):
             if f != "T":
@@ -948,7 +957,7 @@ def features(c, out):
         f.append(k + "-src=" + (c["ds"] if "ds" in c else "generated"))
         d = _kv(out)
         for key, v in d.items():
-            if key not in ("forms", "idx"):
+            if key not in ("forms", "idx", "cols"):
                 f.append("%s-%s=%s" % (k, key, "ok" if v.startswith("ok!") else v))
     return f
 
@@ -1279,7 +1288,8 @@ def gen_cases(tier, rng):
     if thorough:
         load_sets, fmt_sets = BUNDLED_TS, FMT_SETS
     else:
-        load_sets = ["UnitTest", "ItalyPowerDemand", rng.choice(["GunPoint", "ArrowHead", "BasicMotions"])]
+        # JapaneseVowels (12 dimensions, the only bundled problem whose column names cross dim_9/dim_10) in every run
+        load_sets = ["UnitTest", "ItalyPowerDemand", "JapaneseVowels", rng.choice(["GunPoint", "ArrowHead", "BasicMotions"])]
         fmt_sets = [rng.choice(FMT_SETS[:2]), "BasicMotions"] if rng.random() < 0.5 else FMT_SETS[:2]
     for ds in load_sets:
         cases.append({"k": "load", "ds": ds})
@@ -1292,8 +1302,8 @@ def gen_cases(tier, rng):
     # ---- 5. harness-rendered three-format data sets and TRAIN/TEST pairs
     for _ in range(300 if thorough else 40):
         cases.append({"k": "fmt", "gen": _gen_set(rng)})
-    for _ in range(150 if thorough else 20):
-        nd = rng.choice([1, 1, 2])
+    for i in range(156 if thorough else 26):
+        nd = 1 + i % 13          # dimension counts 1..13: the column names cross dim_9 / dim_10
         cases.append({"k": "load", "gen": {"train": _gen_set(rng, nd=nd, n=rng.randrange(1, 6)), "test": _gen_set(rng, nd=nd, n=rng.randrange(1, 6))}})
     # ---- 5b. loader call HISTORIES: sequences of (split, form) calls in one process, some followed by a user
     #          mutation of the returned object; every ordered pair of the six forms on the small set first
@@ -1309,13 +1319,13 @@ def gen_cases(tier, rng):
             sp, rxy = rng.choice(forms6)
             calls.append([sp, rxy, rng.choice(muts) if rng.random() < 0.25 else None])
         return calls
-    hist_sets = BUNDLED_TS if thorough else ["UnitTest", "GunPoint", "ItalyPowerDemand", rng.choice(["ArrowHead", "BasicMotions"])]
+    hist_sets = BUNDLED_TS if thorough else ["UnitTest", "GunPoint", "ItalyPowerDemand", "JapaneseVowels", rng.choice(["ArrowHead", "BasicMotions"])]
     for ds in hist_sets:
         big = ds in ("ACSF1", "PLAID", "OSULeaf", "JapaneseVowels")
-        for _ in range((4 if big else 25) if thorough else (6 if ds != "UnitTest" else 20)):
+        for _ in range((4 if big else 25) if thorough else (2 if big else 6 if ds != "UnitTest" else 20)):
             cases.append({"k": "hist", "ds": ds, "calls": _history(rng.randrange(2, 5 if big else 9))})
-    for _ in range(120 if thorough else 15):
-        nd = rng.choice([1, 1, 2])
+    for i in range(130 if thorough else 26):
+        nd = 1 + i % 13
         cases.append({"k": "hist", "gen": {"train": _gen_set(rng, nd=nd, n=rng.randrange(1, 6)), "test": _gen_set(rng, nd=nd, n=rng.randrange(1, 6))},
                       "calls": _history(rng.randrange(2, 9))})
     # ---- 6. malformed stream
